@@ -137,9 +137,9 @@ def cases_from(results_by_set, maxops, min_ops=0):
     return cases, cnt
 
 
-RZ_B0 = {"quick": 5, "thorough": 7}
-RZ_PICK = {"quick": 6, "thorough": 10}
-RZ_MAX = {"quick": 300, "thorough": 800}
+RZ_B0 = {"quick": 5, "thorough": 6}
+RZ_PICK = {"quick": 6, "thorough": 8}
+RZ_MAX = {"quick": 300, "thorough": 500}
 
 
 def realize_cases(cases, tier, seed, skip):
@@ -187,7 +187,7 @@ def run(tier):
     # (M/V) the composition with the symbolic stack machine: every sequence spec/SFSMachine.tla accepts for the specification within
     # its published bounds, executed concretely, must leave what the sub-block leaves (spec/SFSRealize.tla)
     rz = realize_cases(cases, tier, seed, {c["id"] for c, _ in viol})
-    rv, rgoals, rst, rfin = denote.run_realize(rz, 48, timeout=420 if tier == "quick" else 1500)
+    rv, rgoals, rst, rfin = denote.run_realize(rz, 48, timeout=420 if tier == "quick" else 1200)
     rz_viol = 0
     for c in rz:
         bad = [v for v in rv.get(c["id"], []) if str(v[1]).startswith("realize") or v[1] == "misaligned"]
